@@ -12,6 +12,7 @@
 # See the License for the specific language governing permissions and
 # limitations under the License.
 
+import re
 from pathlib import Path
 
 from antlr4 import InputStream, CommonTokenStream
@@ -294,7 +295,7 @@ class Parser(IdlVisitor):
             dependencies.append(return_type_ref)
 
         def signature(type_ref: TypeReference, depth: int = 2):
-            output = type_ref.name
+            output = re.sub(r'\W', '_', type_ref.name)
             generic_signatures = []
             for param in type_ref.parameters:
                 generic_signatures.append(signature(param, depth + 1))
@@ -305,7 +306,7 @@ class Parser(IdlVisitor):
             [target for target in targets] +
             [signature(parameter.type_ref) for parameter in parameters] +
             [signature(return_type_ref) if return_type_ref else 'void'] +
-            (["throws"] + [ref.name for ref in throwing] if throwing is not None else [])
+            (["throws"] + [re.sub(r'\W', '_', ref.name) for ref in throwing] if throwing is not None else [])
         )
         return Function(
             name=Identifier(name),
